@@ -41,6 +41,8 @@ impl<'a> Tracer<'a> {
         let ok = w.apply(op);
         let dispatched = if fault_at >= 0 { fault::disarm() } else { fault::counter() };
         writeln!(self.out, "R {} submsgs={}", if ok { "ok" } else { "err" }, dispatched).unwrap();
+        // C16 speaks about one particular refusal: say when it was that one
+        if !ok && w.last_err.contains("Only one action allowed") { writeln!(self.out, "X why=restricted").unwrap(); }
         if let Some(b) = before {
             if !ok {
                 let after = w.fingerprint();
